@@ -230,6 +230,15 @@ func runRW(c *Case) []string {
 				}
 			}
 			return tail("")
+		case "smallbuf":
+			// file flavour: a small send buffer, so that a transfer of a few hundred KiB takes many kernel
+			// segments (short writes on calls resumed by the poller, would-block in between)
+			if !adapter {
+				if fdo, ok := obj.(interface{ RawFd() int }); ok {
+					_ = syscall.SetsockoptInt(fdo.RawFd(), syscall.SOL_SOCKET, syscall.SO_SNDBUF, 16384)
+				}
+			}
+			return tail("")
 		case "poll":
 			_, _ = ioc.PollOne()
 			return tail("")
